@@ -12,7 +12,7 @@ import (
 
 func init() {
 	register(&Property{
-		ID: "C20",
+		ID:          "C20",
 		Explanation: "Decided for all paths: restoreUserSnapshot performs no effect (cancelling in-flight futures, creating a snapshot, asking the FSM to restore, moving positions, removing logs) before the snapshot-version check and the committedIndex == latestIndex check passed; it runs only on the leader loop's userRestoreCh arm after the leadership-transfer refusal, followers and candidates answer ErrNotLeader; the cancellation loop answers ErrAbortedByRestore to and removes the front in-flight future until the list is empty; the burned index is max(getLastIndex(), meta.Index)+1 (phi-edge provenance) and that one value, with the current term, is what the snapshot is created at and what lastLog, lastApplied and lastSnapshot are set to, the snapshot carrying the latest (= committed) configuration; a failed or short copy cancels the sink, positions move only after Close()==nil and a successful FSM restore (a failed restore panics), log removal is last and only on monotonic stores; Raft.Restore returns the restore future's error, otherwise enqueues a LogNoop and returns its outcome, each enqueue racing the timer and shutdown.",
 		NotDecided:  "that followers eventually hold the restored state (liveness; see C12 and its known finding) and that the FSM content equals the supplied snapshot bytes.",
 		RuleText:    "C20.R1 guard formula at every effect; R2 arm tables of userRestoreCh; R3 loop shape of the cancellation; R4 phi-edge provenance + descriptor flow of the burned index; R5 success-checked must-precede chain; R6 shape of Raft.Restore.",
@@ -380,7 +380,7 @@ func c20R6(c *Ctx, rule string) {
 	}
 	c.Check(rule, "Restore:follow-up-is-noop", c.P.Pos(fn.Pos()), "the follow-up entry is a LogNoop", isNoop, pick(isNoop, "LogNoop", "other type"), 1)
 	nilRet := 0
-	for i, ret := range engine.ReturnsOf(fn) {
+	for i, ret := range engine.RawReturnsOf(fn) {
 		d := c.P.D(engine.ReturnValues(ret)[0])
 		switch d {
 		case "@ErrEnqueueTimeout", "@ErrRaftShutdown":
